@@ -16,6 +16,10 @@ var c17CoreControls = map[string]bool{
 	"flag-collision": true, "mode-files-include-expr": true,
 	"go-exitcode-ignored": true, "go-halt-swallowed": true, "go-halt-tostring": true,
 	"input-filename-not-reset": true, "rawinput-rtrim": true,
+	// round 3
+	"rawinput-slurp-field": true, "usage-null-input": true, "named-rawfile-dropped": true, "argjson-name-parsed": true,
+	"go-compact-indent-1": true, "go-stderr-name": true,
+	"expr-error-object": true, "go-error-continue": true, "go-exit-0-replaced": true,
 }
 
 func init() {
@@ -121,7 +125,33 @@ func init() {
 	add("mode-flags-under-defaults", "C17.modes", ini, "      ( ( _opt_build_default_fixed\n        + $parsed_args\n", "      ( ( $parsed_args\n        + _opt_build_default_fixed\n", "main:layering")
 	add("mode-stdin-lost", "C17.modes", opt, "        | if . == [] then [null] end", "        | if . == [] then [] end", "opt_eval:filenames")
 	add("mode-filenames-init", "C17.modes", ini, "| _input_filenames($opts.filenames) as $_", "| _input_filenames($opts.filenames[1:]) as $_", "main:init-filenames")
+	// round 3: raw input slurp guard, usage guard, named arguments, remaining derivations, -o conversions
+	add("rawinput-slurp-field", "C17.rawinput", ini, "        | if $opts.slurp then\n            # jq --raw-input combined", "        | if $opts.string_input then\n            # jq --raw-input combined", "slurp:guard")
+	add("usage-null-input", "C17.modes", ini, "        $opts.null_input == false and\n", "", "main:usage-guard:no-null-input")
+	add("usage-stdout-tty", "C17.modes", ini, "        stdin_tty.is_terminal and\n        stdout_tty.is_terminal\n", "        stdin_tty.is_terminal\n", "main:usage-guard:stdout-tty")
+	add("usage-exit-0", "C17.modes", ini, "      , (null | halt_error(_exit_code_args_error))\n      )", "      )", "main:usage-guard:halts-2")
+	add("named-rawfile-dropped", "C17.modes", ini, "              $opts.raw_file +\n", "", "main:named-args:raw_file")
+	add("named-swapped", "C17.modes", ini, "            | map({key: .[0], value: .[1]})", "            | map({key: .[1], value: .[0]})", "main:named-args:entry")
+	add("argjson-name-parsed", "C17.modes", opt, "              ( . as $a\n              | .[1] |=\n                try fromjson", "              ( . as $a\n              | .[0] |=\n                try fromjson", "named-args:argjson:value-index")
+	add("rawfile-name-read", "C17.modes", opt, "            ( map(.[1] |=\n                ( . as $f", "            ( map(.[0] |=\n                ( . as $f", "named-args:raw_file:value-index")
+	add("argdecode-name-decoded", "C17.modes", ini, "      | .[1] |=\n        try (open | decode)", "      | .[0] |=\n        try (open | decode)", "named-args:argdecode:value-index")
+	add("value-output-from-unicode", "C17.modes", opt, "        if .value_output == true then true", "        if .unicode_output == true then true", "opt_eval:value_output")
+	add("at-file-off-by-one", "C17.modes", opt, "              ( .[1:]\n              | open", "              ( .[0:]\n              | open", "opt_eval:at-file")
+	add("opt-to-number-string", "C17.modes", opt, "  elif $type == \"number\" then _opt_to_number", "  elif $type == \"number\" then _opt_to_string", "opt_to:number")
+	add("expr-error-object", "C17.handlers", ini, "  | if _is_string | not then tojson end\n", "", "on_expr_error:message-kind")
+	add("expr-error-only-objects", "C17.handlers", ini, "  | if _is_string | not then tojson end\n", "  | if _is_object then tojson end\n", "on_expr_error:message-kind")
+	add("expr-error-record-after-print", "C17.handlers", ini, "  | _cli_last_expr_error($err) as $_\n  | (_error_str([input_filename // empty]) | printerrln)", "  | (_error_str([input_filename // empty]) | printerrln)\n  | _cli_last_expr_error($err)", "on_expr_error:record-before-print")
+	add("expr-error-index-nonobject", "C17.handlers", ini, "  ( if _is_object then\n      if .error | _eval_is_compile_error", "  ( if _is_object | not then\n      if .error | _eval_is_compile_error", "on_expr_error:no-raise")
+	add("compile-error-continues", "C17.handlers", ini, "  | _eval_compile_error_tostring\n  | _fatal_error(_exit_code_compile_error)", "  | _eval_compile_error_tostring\n  | (_error_str | printerrln)", "on_compile_error:halts")
+	add("opt-drop-invalid", "C17.modes", opt, "      | .value |= _opt_to($opts[$k] // \"fuzzy\")\n      | select(.value != null)", "      | .value |= _opt_to($opts[$k] // \"fuzzy\")", "opt_to:drop-invalid")
 	// go
+	add("go-error-continue", "C17.go", "pkg/interp/interp.go", "\t\t\t} else {\n\t\t\t\tfmt.Fprintln(i.OS.Stderr(), v)\n\t\t\t}\n\t\t\treturn v", "\t\t\t} else {\n\t\t\t\tfmt.Fprintln(i.OS.Stderr(), v)\n\t\t\t\tcontinue\n\t\t\t}\n\t\t\treturn v", "Interp.Main:error-ends-run")
+	add("go-exit-0-replaced", "C17.go", "pkg/cli/cli.go", "if ex, ok := err.(interp.Exiter); ok {", "if ex, ok := err.(interp.Exiter); ok && ex.ExitCode() != 0 {", "cli.Main:other-only-non-exiter")
+	add("go-stdout-name", "C17.go", "pkg/interp/interp.go", "\tcase \"stdout\":\n\t\treturn i.OS.Stdout(), nil", "\tcase \"stdout\":\n\t\treturn i.OS.Stderr(), nil", "stdio-fd:stdout")
+	add("go-compact-indent-1", "C17.go", "pkg/interp/interp.go", "\tif opts.Compact {\n\t\tindent = 0", "\tif opts.Compact {\n\t\tindent = 1", "compact:indent")
+	add("go-compact-inverted", "C17.go", "pkg/interp/interp.go", "\tif opts.Compact {\n", "\tif !opts.Compact {\n", "compact:indent")
+	add("go-stderr-name", "C17.go", "pkg/interp/interp.go", "\tcase \"stderr\":\n\t\treturn i.OS.Stderr(), nil", "\tcase \"stderr\":\n\t\treturn i.OS.Stdout(), nil", "stdio-fd:stderr")
+	add("go-stderr-stream", "C17.go", "pkg/cli/cli.go", "func (o stderrOutput) Write(p []byte) (n int, err error) { return os.Stderr.Write(p) }", "func (o stderrOutput) Write(p []byte) (n int, err error) { return os.Stdout.Write(p) }", "os-stream:stderrOutput")
 	add("go-exitcode-ignored", "C17.go", "pkg/cli/cli.go", "				return ex.ExitCode()", "				_ = ex\n				return 1", "cli.Main:has-exitcode")
 	add("go-error-exits-0", "C17.go", "pkg/cli/cli.go", "				return ex.ExitCode()\n			}\n			return 1", "				return ex.ExitCode()\n			}\n			return 0", "cli.Main:return-0")
 	add("go-halt-swallowed", "C17.go", "pkg/interp/interp.go", "				return haltErr\n", "				return nil\n", "Interp.Main:return-nil")
